@@ -77,9 +77,9 @@ func Load(repo string, goos, goarch string, withSSA bool) (*World, error) {
 	}
 	fset := token.NewFileSet()
 	cfg := &packages.Config{
-		Mode:  packages.LoadSyntax | packages.NeedModule,
-		Dir:   repo,
-		Fset:  fset,
+		Mode:    packages.LoadSyntax | packages.NeedModule,
+		Dir:     repo,
+		Fset:    fset,
 		Env:     filtered,
 		Tests:   false,
 		Overlay: Overlay,
